@@ -10,7 +10,9 @@ Mirrors, branch by branch:
 * `parse_adbasic_program`       — `parseLoop` (a FIFO work-list *without a visited set*, so the model
   needs fuel: one unit of fuel = one `open()` of the real parser);
 * `_extract_data_defines`, `_extract_par_defines`, `analyze_parameter_info` — `extractData`,
-  `extractPar`, `analyze` (Python dicts are insertion-ordered association lists);
+  `extractPar`, `analyze` (Python dicts are insertion-ordered association lists). Both loops have the same
+  shape: classify the symbol (`dataClass` / `parClass`: prefix test, value regexes, `int()`), then run the
+  three duplicate checks and the three stores (`bindOne`), so they share `stepCls` / `loopCls`;
 * `AdwinProcess.get_par / set_par / _find_sequential_ranges / get_par_multiple / set_par_multiple /
   start_with_params` against a simulated ADwin register file with an access log.
 
